@@ -261,8 +261,14 @@ func calculateBackoff(endpoint *domain.Endpoint, success bool) (time.Duration, i
 	// For first failure (BackoffMultiplier is 1), keep normal interval
 	// Only apply backoff on subsequent failures
 	if endpoint.BackoffMultiplier <= 1 {
-		// First failure - use normal interval but set multiplier to 2 for next time
-		return endpoint.CheckInterval, 2
+		// First failure - use normal interval but set multiplier to 2 for next time.
+		// The cap applies here too (check_interval may exceed it), as it does in
+		// RetryHandler.markEndpointUnhealthy
+		firstInterval := endpoint.CheckInterval
+		if firstInterval > MaxBackoffSeconds {
+			firstInterval = MaxBackoffSeconds
+		}
+		return firstInterval, 2
 	}
 
 	// Calculate the multiplier for subsequent failures (exponential: 2, 4, 8...)
